@@ -460,22 +460,38 @@ func run(e *core.Env) {
 				}
 			}
 		}
-		sendHello(lo, hi, "lo")
-		sleepHeld(24*time.Second + time.Duration(tp.Intn(5900))*time.Millisecond)
-		sendHello(hi, lo, "hi")
-		history = append(history, "both-initiated")
-		deliverTo(hi, false)
-		sleepHeld(200*time.Millisecond + time.Duration(tp.Intn(7800))*time.Millisecond)
-		deliverTo(lo, false)
-		if tp.Chance(1, 2) {
-			deliverTo(hi, true)
-			deliverTo(lo, true)
+		if tp.Chance(1, 3) {
+			// ... or a retry: the first request is served, its response is held for longer than
+			// the 30 s after which the requester gives its exchange up (and for less than the
+			// minute after which it forgets it), the requester tries again, that request is
+			// served too - and the late first response arrives before the second one.
+			sendHello(lo, hi, "first")
+			deliverTo(hi, false)
+			sleepHeld(30200*time.Millisecond + time.Duration(tp.Intn(25000))*time.Millisecond)
+			sendHello(lo, hi, "retry")
+			deliverTo(hi, false)
+			deliverTo(lo, true) // oldest first
+			history = append(history, "late-response-before-the-retrys")
+			e.Probe("late_first_response_arrives_before_the_retrys")
+			e.Fault("delay")
 		} else {
-			deliverTo(lo, true)
-			deliverTo(hi, true)
+			sendHello(lo, hi, "lo")
+			sleepHeld(24*time.Second + time.Duration(tp.Intn(5900))*time.Millisecond)
+			sendHello(hi, lo, "hi")
+			history = append(history, "both-initiated")
+			deliverTo(hi, false)
+			sleepHeld(200*time.Millisecond + time.Duration(tp.Intn(7800))*time.Millisecond)
+			deliverTo(lo, false)
+			if tp.Chance(1, 2) {
+				deliverTo(hi, true)
+				deliverTo(lo, true)
+			} else {
+				deliverTo(lo, true)
+				deliverTo(hi, true)
+			}
+			e.Probe("slow_delivery_around_the_setup_timeout")
+			e.Fault("delay")
 		}
-		e.Probe("slow_delivery_around_the_setup_timeout")
-		e.Fault("delay")
 	}
 
 	steps := 4 + tp.Intn(24)
